@@ -22,3 +22,76 @@ package keygen
 //@   props C06 C19
 //@   ensures result1 != nil ==> result0 == nil
 //@   ensures result1 == nil ==> (result0 != nil && fresh(result0) && wfPreProof(result0) && honestPre(result0))
+
+// ----- dln_verifier.go -----
+//@ func NewDlnProofVerifier
+//@   deadpoints 1
+//@   props C06 C09
+//@   requires [caller-config] concurrency > 0 && concurrency <= 1048576
+//@   ensures result != nil && fresh(result)
+//@ func (*DlnProofVerifier).VerifyDLNProof1
+//@   trusted starts a goroutine (bounded by a semaphore channel) that decodes and verifies the proof and then calls onDone once; modelled as that one call
+//@   props C06 C09 C05
+//@   requires dpv != nil && !isnil(m) && h1 != nil && h2 != nil && n != nil
+//@   invokes onDone
+//@ func (*DlnProofVerifier).VerifyDLNProof2
+//@   trusted as VerifyDLNProof1
+//@   props C06 C09 C05
+//@   requires dpv != nil && !isnil(m) && h1 != nil && h2 != nil && n != nil
+//@   invokes onDone
+
+// ----- message decoders -----
+//@ func (*KGRound1Message).UnmarshalCommitment
+//@   props C06 C16
+//@   requires m != nil
+//@   ensures result != nil && fresh(result) && val(result) >= 0
+//@ func (*KGRound1Message).UnmarshalPaillierPK
+//@   props C06 C14
+//@   requires m != nil
+//@   ensures result != nil && fresh(result) && result.N != nil && fresh(result.N) && val(result.N) >= 0
+//@ func (*KGRound1Message).UnmarshalNTilde
+//@   props C06
+//@   requires m != nil
+//@   ensures result != nil && fresh(result) && val(result) >= 0 && val(result) == beint(bytes(m.NTilde))
+//@ func (*KGRound1Message).UnmarshalH1
+//@   props C06
+//@   requires m != nil
+//@   ensures result != nil && fresh(result) && val(result) >= 0
+//@ func (*KGRound1Message).UnmarshalH2
+//@   props C06
+//@   requires m != nil
+//@   ensures result != nil && fresh(result) && val(result) >= 0
+
+// ----- round_2.go -----
+//@ define kgN(round) = len(round.Parameters.parties.partyIDs)
+//@ define kgI(round) = round.Parameters.partyID.Index
+//@ define ecKgWF(round) = wfParams(round.Parameters) && issecp(round.Parameters.ec) && wfIDs(round.Parameters.parties.partyIDs) && round.temp != nil && round.save != nil && round.out != nil && round.end != nil && 2 <= kgN(round) && kgN(round) <= 256 && 0 <= kgI(round) && kgI(round) < kgN(round) && len(round.ok) == kgN(round) && len(round.temp.kgRound1Messages) == kgN(round) && len(round.temp.kgRound2Message1s) == kgN(round) && len(round.temp.kgRound2Message2s) == kgN(round) && len(round.temp.kgRound3Messages) == kgN(round) && len(round.temp.KGCs) == kgN(round) && len(round.save.PaillierPKs) == kgN(round) && len(round.save.NTildej) == kgN(round) && len(round.save.H1j) == kgN(round) && len(round.save.H2j) == kgN(round) && len(round.save.BigXj) == kgN(round) && len(round.save.Ks) == kgN(round) && 0 <= round.Parameters.threshold && round.Parameters.threshold < 256
+//@ define kg1slot(m) = (!isnil(m) && istype(msgcontent(m), "*ecdsa/keygen.KGRound1Message") && cast(msgcontent(m), "*ecdsa/keygen.KGRound1Message") != nil && msgfrom(m) != nil)
+//@ func (*round2).Start$1
+//@   props C06 C05
+//@   requires 0 <= _j && _j < len(dlnProof1FailCulprits) && !isnil(_msg) && wg != nil
+//@   modifies dlnProof1FailCulprits[*]
+//@   ensures [C05.a-failing-dln-proof-blames-its-sender] forall k in 0..len(dlnProof1FailCulprits) :: (dlnProof1FailCulprits[k] == old(dlnProof1FailCulprits[k]) || (k == _j && dlnProof1FailCulprits[k] == msgfrom(_msg)))
+//@ func (*round2).Start$2
+//@   props C06 C05
+//@   requires 0 <= _j && _j < len(dlnProof2FailCulprits) && !isnil(_msg) && wg != nil
+//@   modifies dlnProof2FailCulprits[*]
+//@   ensures [C05.a-failing-dln-proof-blames-its-sender] forall k in 0..len(dlnProof2FailCulprits) :: (dlnProof2FailCulprits[k] == old(dlnProof2FailCulprits[k]) || (k == _j && dlnProof2FailCulprits[k] == msgfrom(_msg)))
+
+// the ring-Pedersen modulus announced in a round-1 message has exactly 2048 bits (checked by round 2 before it is stored)
+//@ define kgNT(m) = beint(bytes(cast(msgcontent(m), "*ecdsa/keygen.KGRound1Message").NTilde))
+//@ func (*round2).Start
+//@   props C06 C05 C03
+//@   requires round != nil && round.round1 != nil && round.round1.base != nil && ecKgWF(round)
+//@   requires [caller-config] round.Parameters.concurrency > 0 && round.Parameters.concurrency <= 1048576
+//@   requires [round-1-complete] forall j in 0..kgN(round) :: kg1slot(round.temp.kgRound1Messages[j])
+//@   requires [own-dealing-from-round-1] len(round.temp.shares) == kgN(round) && (forall k in 0..len(round.temp.shares) :: (round.temp.shares[k] != nil && round.temp.shares[k].ID != nil && round.temp.shares[k].Share != nil)) && len(round.temp.ssid) <= 4096 && cap(round.temp.ssid) == len(round.temp.ssid) && (forall k in 0..len(round.temp.deCommitPolyG) :: round.temp.deCommitPolyG[k] != nil)
+//@   requires [save-lists-separate] arr(round.save.NTildej) != arr(round.save.H1j) && arr(round.save.NTildej) != arr(round.save.H2j) && arr(round.save.H1j) != arr(round.save.H2j) && arr(round.temp.KGCs) != arr(round.save.NTildej) && arr(round.temp.KGCs) != arr(round.save.H1j) && arr(round.temp.KGCs) != arr(round.save.H2j)
+//@   requires [own-key-material] round.save.LocalPreParams.PaillierSK != nil && round.save.LocalPreParams.PaillierSK.PublicKey.N != nil && val(round.save.LocalPreParams.PaillierSK.PublicKey.N) > 0 && bitlen(val(round.save.LocalPreParams.PaillierSK.PublicKey.N)) <= 2100 && round.save.LocalPreParams.PaillierSK.P != nil && round.save.LocalPreParams.PaillierSK.Q != nil && val(round.save.LocalPreParams.PaillierSK.P) >= 0 && val(round.save.LocalPreParams.PaillierSK.Q) >= 0 && round.save.NTildej[kgI(round)] != nil && val(round.save.NTildej[kgI(round)]) > 0 && bitlen(val(round.save.NTildej[kgI(round)])) <= 2100 && round.save.H1j[kgI(round)] != nil && round.save.H2j[kgI(round)] != nil
+//@   modifies round.number, round.started, round.ok[*], round.save.PaillierPKs[*], round.save.NTildej[*], round.save.H1j[*], round.save.H2j[*], round.temp.KGCs[*], round.temp.kgRound2Message1s[*], round.temp.kgRound2Message2s[*], sent(round.out)
+//@   loop 0 invariant round.started && fresh(dlnProof1FailCulprits) && fresh(dlnProof2FailCulprits) && len(dlnProof1FailCulprits) == kgN(round) && len(dlnProof2FailCulprits) == kgN(round) && dlnVerifier != nil && wg != nil && h1H2Map != nil && fresh(h1H2Map)
+//@   loop 0 invariant forall k in 0..$iter :: bitlen(kgNT(round.temp.kgRound1Messages[k])) == 2048
+//@   loop 1 invariant round.started && (forall k in 0..kgN(round) :: bitlen(kgNT(round.temp.kgRound1Messages[k])) == 2048)
+//@   loop 2 invariant round.started && (forall k in 0..kgN(round) :: bitlen(kgNT(round.temp.kgRound1Messages[k])) == 2048)
+//@   loop 2 invariant forall k in 0..$iter :: (k != i ==> (round.save.NTildej[k] != nil && val(round.save.NTildej[k]) > 0 && bitlen(val(round.save.NTildej[k])) == 2048 && round.save.H1j[k] != nil && round.save.H2j[k] != nil))
+//@   loop 3 invariant round.started && (forall k in 0..kgN(round) :: (round.save.NTildej[k] != nil && val(round.save.NTildej[k]) > 0 && bitlen(val(round.save.NTildej[k])) <= 2100 && round.save.H1j[k] != nil && round.save.H2j[k] != nil))
